@@ -234,3 +234,12 @@ Fixpoint outcomes_eqb (a b : list outcome) : bool :=
   | x :: a', y :: b' => outcome_eqb x y && outcomes_eqb a' b'
   | _, _ => false
   end.
+
+(* validate_grid_manager_certificate seen from outside: 0 = returns None (bad signature, or the signed
+   JSON value is null), 1 = returns the decoded value, 2 = raises (signed bytes are not JSON) *)
+Definition sym_validate_class (tbl : sym_table) (k : N) (c : signed_cert N sym_sig) : N :=
+  match validate_grid_manager_certificate N N sym_sig sym_verify N (sym_decode tbl) k c with
+  | VBadSig _ => 0
+  | VRaise _ => 2
+  | VCert _ j => match j with JNull => 0 | _ => 1 end
+  end.
